@@ -3,8 +3,8 @@
 
   The theorems are about `Conc.Step cfg …` where `cfg` is COMPUTED from the regenerated skeleton
   `Facts.closeSkel` of App.Close: moving or removing wg.Add / defer wg.Done / wg.Wait, or calling the
-  closers in a plain loop, changes the generated term, `C14_skeleton` stops checking and with it every
-  theorem below (they all go through `cfg_joined`).
+  closers in a plain loop, changes the generated term, `C14_skeleton` stops checking and with it all the
+  theorems below (they all go through `cfg_joined`).
   `Reach cfg n errs s` = s is reachable under SOME schedule of main and the n closer goroutines, so a
   statement for all reachable s is a statement for all schedules, all delays and finishing orders.
   Partial by nature: the model cannot show scheduler starvation, a closer that never returns, or a
